@@ -274,6 +274,10 @@ func RunParent(chk *Check, opt Options) int {
 				if matches, _ := filepath.Glob(racelog + "*"); len(matches) > 0 {
 					for _, m := range matches {
 						b, _ := os.ReadFile(m)
+						if keep := os.Getenv("VERIF_RACELOG_DIR"); keep != "" {
+							_ = os.MkdirAll(keep, 0o755)
+							_ = os.WriteFile(filepath.Join(keep, chk.ID+"-"+filepath.Base(m)), b, 0o644)
+						}
 						blocks, pairs := ParseRaceLog(string(b))
 						mu.Lock()
 						raceBlocks += blocks
